@@ -49,6 +49,7 @@ pub fn run(ctx: &mut Ctx) {
     }
     ctx.stage("U-SCALE");
     for (_name, prog) in super::super::universes::scale::programs(!ctx.quick()) { if ctx.take().is_some() { validate_source(ctx, "U-SCALE", &show(&prog)) } }
+    for (_name, prog) in super::super::universes::scale::programs_u16() { if ctx.take().is_some() { validate_source(ctx, "U-SCALE", &show(&prog)) } }
     // scope programs: frame sizes and slot numbers of if/else + let combinations that U-SYN's size bound does not reach
     let scope_n = if ctx.quick() { 5 } else { 6 };
     let mut gs = super::c12::grammar();
